@@ -1,6 +1,7 @@
 import RV.Proofs.VarAux
 import RV.Proofs.VarKepler
 import RV.Gen.C16Dispatch
+import RV.Gen.C16Rescale
 import RV.Proofs.VarMegno
 import RV.Proofs.VarDeriv2a
 import RV.Proofs.VarDeriv2b
@@ -952,5 +953,24 @@ theorem c16_megno_var_increment (isZero : K → Bool) (s : Megno K) (t dY dt : K
     s'.var - s.var = ((n - 1) / n) ^ 2 * ((t - s.meanT) * (t - s'.meanT)) ∧
     t - s'.meanT = (n - 1) / n * (t - s.meanT) :=
   megno_var_step isZero s t dY dt
+
+end RV.Var
+
+/-! ### rescale_var rescales the complete persistent state of IAS15 (tables regenerated from the source every run) -/
+namespace RV.Var
+open RV.Gen.C16Rescale
+
+/-- The arrays divided by `scale` in the IAS15 branch of `reb_simulation_rescale_var` are exactly the
+    per-particle arrays of `struct reb_integrator_ias15` that survive from one step attempt to the next
+    (csx, csv and all seven components of b, e, br, er — br/er are read by `predict_next_step` when the
+    *next* attempt is rejected), each once; the declared array size and the loop bound equal their number
+    and the loop divides every entry of the rescaled particles' range.  The scratch arrays
+    (at, x0, v0, a0, csa0, g, csb: first use in a step attempt is a plain assignment) need no rescaling. -/
+theorem c16_rescale_ias15_state_complete :
+    rescaled.Nodup ∧ declaredArraySize = rescaled.length ∧ loopBound = rescaled.length ∧ loopShapeOk = true ∧
+    (∀ a ∈ persistentArrays ias15Members writtenFirst, a ∈ rescaled) ∧
+    (∀ a ∈ rescaled, a ∈ persistentArrays ias15Members writtenFirst) ∧
+    (persistentArrays ias15Members writtenFirst).length = 30 := by
+  decide +kernel
 
 end RV.Var
